@@ -396,12 +396,14 @@ def svcStep (cfg : Cfg) (f : Faults) (s : St) (id : Id) : St :=
   | some (.ent d tok loc false false) => syncService cfg f id d tok loc s
   | some (.ent _ _ _ true false) => s
 
+/-- `syncCheck` pulls in the associated service when it is registered locally (not pending removal) -/
+def checkSvc (l : Local) (sid : Id) : Option (Id × SvcDef) :=
+  match l.svcs.get? sid with
+  | some (.ent sd _ _ _ false) => some (sid, sd)
+  | _ => none
+
 def syncCheck (cfg : Cfg) (f : Faults) (k : Id) (d : ChkDef) (s : St) : St :=
-  let svc : Option (Id × SvcDef) :=
-    match s.l.svcs.get? d.sid with
-    | some (.ent sd _ _ _ false) => some (d.sid, sd)
-    | _ => none
-  let req : RegReq := { nodeVal := cfg.nodeVal, skipNode := s.l.nodeInSync, svc := svc, chks := [(k, d)] }
+  let req : RegReq := { nodeVal := cfg.nodeVal, skipNode := s.l.nodeInSync, svc := checkSvc s.l d.sid, chks := [(k, d)] }
   match f.chk k with
   | .denied => { s with l := markChk s.l k }
   | .fail => { s with ok := false }
@@ -439,12 +441,16 @@ def svcLoop (cfg : Cfg) (ord : Order) (f : Faults) (s : St) : St :=
 def chkLoop (cfg : Cfg) (ord : Order) (f : Faults) (s : St) : St :=
   (visit ord.chks s.l.chks.keys).foldl (chkStep cfg f) s
 
+/-- the two loops of `SyncChanges` -/
+def syncRest (cfg : Cfg) (ord : Order) (f : Faults) (s : St) : St :=
+  chkLoop cfg ord f (svcLoop cfg ord f s)
+
 /-- `SyncChanges`: node info first (an error there returns at once), then the services, then the
     checks, errors accumulated -/
 def syncChanges (cfg : Cfg) (ord : Order) (f : Faults) (l : Local) (c : Cat) : St :=
-  let s0 : St := ⟨l, c, true⟩
-  let (s1, go) := if l.nodeInSync then (s0, true) else syncNode cfg f s0
-  if go then chkLoop cfg ord f (svcLoop cfg ord f s1) else s1
+  if l.nodeInSync then syncRest cfg ord f ⟨l, c, true⟩
+  else if (syncNode cfg f ⟨l, c, true⟩).2 then syncRest cfg ord f (syncNode cfg f ⟨l, c, true⟩).1
+  else (syncNode cfg f ⟨l, c, true⟩).1
 
 /-- `SyncFull`: a failing read leaves everything as it was -/
 def syncFull (cfg : Cfg) (ord : Order) (f : Faults) (l : Local) (c : Cat) : St :=
